@@ -170,3 +170,66 @@ pub fn point(name: &str) {
         *p.parked.entry(name.to_string()).or_insert(1) -= 1;
     }
 }
+
+// ---------------------------------------------------------------------------------------
+// Deterministic compaction trigger: runs exactly what one iteration of the background
+// compactor (`engine/compactor/background.rs`) runs after its pressure checks, with the
+// shard's own live segment list and flush lock.
+
+use crate::engine::shard::types::ShardSharedState;
+use std::path::PathBuf;
+
+fn shards() -> &'static Mutex<HashMap<usize, (PathBuf, ShardSharedState)>> {
+    static S: OnceLock<Mutex<HashMap<usize, (PathBuf, ShardSharedState)>>> = OnceLock::new();
+    S.get_or_init(|| Mutex::new(HashMap::new()))
+}
+
+pub fn register_shard(id: usize, dir: PathBuf, state: ShardSharedState) {
+    shards().lock().unwrap().insert(id, (dir, state));
+}
+
+pub fn shard_live_segments(id: usize) -> Option<Vec<String>> {
+    shards()
+        .lock()
+        .unwrap()
+        .get(&id)
+        .map(|(_, st)| st.segment_ids.read().unwrap().clone())
+}
+
+/// One compaction round on shard `id`. Returns Ok(true) when plans existed and the worker ran.
+pub async fn compact_now(id: usize) -> Result<bool, String> {
+    use crate::engine::core::compaction::{
+        handover::CompactionHandover,
+        policy::{CompactionPolicy, KWayCountPolicy},
+    };
+    use crate::engine::core::{CompactionWorker, SegmentIndex};
+    use crate::engine::schema::SchemaRegistry;
+    use std::sync::Arc;
+
+    let (shard_dir, state) = shards()
+        .lock()
+        .unwrap()
+        .get(&id)
+        .cloned()
+        .ok_or_else(|| format!("shard {id} not registered"))?;
+    let handover = Arc::new(CompactionHandover::new(
+        id as u32,
+        shard_dir.clone(),
+        Arc::clone(&state.segment_ids),
+        Arc::clone(&state.flush_lock),
+    ));
+    let segment_index = SegmentIndex::load(&shard_dir)
+        .await
+        .map_err(|e| e.to_string())?;
+    let policy = KWayCountPolicy::default();
+    let plans = CompactionPolicy::plan(&policy, &segment_index);
+    if plans.is_empty() {
+        return Ok(false);
+    }
+    let registry = Arc::new(tokio::sync::RwLock::new(
+        SchemaRegistry::new().map_err(|e| e.to_string())?,
+    ));
+    let worker = CompactionWorker::new(id as u32, shard_dir.clone(), registry, handover);
+    worker.run().await.map_err(|e| e.to_string())?;
+    Ok(true)
+}
